@@ -36,7 +36,7 @@ Next ==
   /\ LET e == Rec[l] IN
      CASE e.ev = "reset" ->
             /\ Bump(4)
-            /\ cs' = [emu |-> e.emu, resized |-> FALSE, dead |-> FALSE, modelled |-> Modelled(e.emu)]
+            /\ cs' = [emu |-> e.emu, resized |-> FALSE, dead |-> FALSE, modelled |-> Modelled(e.emu) /\ (~Has(e, "model") \/ e.model = 1)]
             /\ st' = InitStE(e.emu, e.w, e.h, e.alloc = 1, IF e.emu = "ansi" THEN e.music ELSE 0, e.emu = "ansi" /\ e.bs = 1)
        [] e.ev = "ch" ->
             /\ Bump(3)
